@@ -48,7 +48,8 @@ ARG_SITES = {("frontend/api.py", "_split_tensors"), ("frontend/api.py", "_to_tra
              ("frontend/backend.py", "BackendRegistryState._register"), ("frontend/backend.py", "BackendRegistryState._get_by_name"),
              ("frontend/backend.py", "BackendRegistryState._get"),
              ("adapter/einx_from_namedtensor.py", "_parse_op"), ("adapter/einx_from_namedtensor.py", "op.inner"),
-             ("namedtensor/solve.py", "solve"), ("namedtensor/stage2/solve.py", "_input_expr")}
+             ("namedtensor/solve.py", "solve"), ("namedtensor/stage2/solve.py", "_input_expr"),
+             ("adapter/numpy/classical_from_numpy.py", "elementwise.inner")}
 
 
 # ------------------------------------------------------------------ observation of numpy calls on the arguments
@@ -367,6 +368,24 @@ def corruptions(call, rng):
         out.append(("unbalance", True, _with(call, desc=desc + rng.choice([" )", " ]", " (", " ["]))))
     # 6: second arrow
     out.append(("dup-arrow", True, _with(call, desc=desc.replace("->", "-> ->", 1) if "->" in desc else desc + " -> ->")))
+    # 6b: a character outside the documented alphabet (names [a-zA-Z_][a-zA-Z0-9_]*, numbers [0-9]+): one axis name gets a
+    # non-ASCII word character appended at every occurrence (the call would be well-formed if the character were allowed),
+    # or a number is written with non-ASCII decimal digits
+    import re as _re
+    names_in_desc = sorted(set(_re.findall(r"[a-zA-Z_][a-zA-Z0-9_]*", desc)))
+    if names_in_desc:
+        nm = rng.choice(names_in_desc)
+        ch = rng.choice(["\u00e9", "\u00b2", "\u00df", "\u4e2d", "\uff21", "\u0663"])
+        new_desc = _re.sub(r"(?<![a-zA-Z0-9_])" + _re.escape(nm) + r"(?![a-zA-Z0-9_])", nm + ch, desc)
+        kw2 = {(k + ch if k == nm else k): v for k, v in kwargs.items()}
+        out.append(("foreign-char", True, _with(call, desc=new_desc, kwargs=kw2)))
+    nums = _re.findall(r"(?<![a-zA-Z0-9_])[0-9]+(?![a-zA-Z0-9_])", desc)
+    if nums:
+        num = rng.choice(nums)
+        table = rng.choice([str.maketrans("0123456789", "\u0660\u0661\u0662\u0663\u0664\u0665\u0666\u0667\u0668\u0669"),
+                            str.maketrans("0123456789", "\uff10\uff11\uff12\uff13\uff14\uff15\uff16\uff17\uff18\uff19")])
+        new_desc = _re.sub(r"(?<![a-zA-Z0-9_])" + num + r"(?![a-zA-Z0-9_])", num.translate(table), desc, count=1)
+        out.append(("foreign-digit", True, _with(call, desc=new_desc)))
     if has_ell:
         return out
     sl = slots(call)
